@@ -37,6 +37,34 @@ impl Spec {
     }
     /// build a NEW sketcher instance, feed the input, return every sketch view as a flat bit pattern
     pub fn compute(&self) -> Vec<u64> {
+        self.compute_with_history(false)
+    }
+
+    /// with `recycled`: the instance first processes unrelated data and is then reset (reinit / reset / self-clearing hash_set)
+    /// where the type offers that; types without a reset are simply new instances
+    pub fn compute_with_history(&self, recycled: bool) -> Vec<u64> {
+        match self {
+            Spec::Pmh { variant: Variant::P2, hasher, m, items, .. } if recycled => {
+                fn run<H: std::hash::Hasher + Default>(m: usize, items: &[(u64, F)]) -> Vec<u64> {
+                    let mut s = probminhash::probminhasher::ProbMinHash2::<u64, H>::new(m, PLACEHOLDER);
+                    for i in 0..(m as u64 + 3) {
+                        s.hash_item(0xABCD_0000 + i, 1.0 + i as f64);
+                    }
+                    s.reset();
+                    for (d, w) in items {
+                        s.hash_item(*d, w.0);
+                    }
+                    s.get_signature().clone()
+                }
+                return match hasher {
+                    HasherKind::Fnv => run::<FnvHasher>(*m, items),
+                    HasherKind::NoHash => run::<probminhash::nohasher::NoHashHasher>(*m, items),
+                    HasherKind::Wy => run::<WyHash>(*m, items),
+                    HasherKind::Xx64 => run::<twox_hash::XxHash64>(*m, items),
+                };
+            }
+            _ => {}
+        }
         match self {
             Spec::Pmh { variant, hasher, m, items, entry } => {
                 let avail = entries(*variant);
@@ -55,6 +83,11 @@ impl Spec {
             }
             Spec::Unw { kind, m, ss, items, pres } => {
                 let mut s = make(*kind, *m, ss);
+                if recycled {
+                    let junk: Vec<u64> = (0..(2 * *m as u64 + 5)).map(|i| splitmix64(0xD15EA5E ^ i)).collect();
+                    s.slice(&junk);
+                    s.reinit();
+                }
                 if kind.is_dens() {
                     let st = pres.stream(items);
                     s.slice(&st);
@@ -79,10 +112,19 @@ impl Spec {
             }
             Spec::Ord { m, l, wy, seq } => {
                 let data: Vec<u64> = seq.iter().map(|x| 7000 + *x as u64).collect();
+                let junk: Vec<u64> = (0..(*l as u64 + 7)).map(|i| 7000 + (i * 5) % 11).collect();
                 if *wy {
-                    ProbOrdMinHash2::<WyHash>::new(*m, *l).hash_set(&data)
+                    let mut h = ProbOrdMinHash2::<WyHash>::new(*m, *l);
+                    if recycled {
+                        let _ = h.hash_set(&junk);
+                    }
+                    h.hash_set(&data)
                 } else {
-                    ProbOrdMinHash2::<FnvHasher>::new(*m, *l).hash_set(&data)
+                    let mut h = ProbOrdMinHash2::<FnvHasher>::new(*m, *l);
+                    if recycled {
+                        let _ = h.hash_set(&junk);
+                    }
+                    h.hash_set(&data)
                 }
             }
         }
